@@ -189,9 +189,11 @@ class FuncMixin:
         # preconditions are obligations of the caller
         k = self.ordinal("pre", node) if node is not None else 0
         for i, r in enumerate(con.requires):
-            g = self.spec_bool(r, pre)
-            self.oblige(st, f"pre@{target.split(':')[1]}", f"#{k}.{i}", g, descr=f"precondition {r!r} of {target}",
-                        node=node)
+            gv, gax = self.spec_eval_full(r, pre)
+            g = z3.And(*gax, truth(gv)) if gax else truth(gv)
+            self.oblige(st, f"pre@{target.split(':')[1]}", f"#{k}.{i}",
+                        z3.Implies(z3.And(*gax), truth(gv)) if gax else truth(gv),
+                        descr=f"precondition {r!r} of {target}", node=node)
             st = st.assume(g)   # continue under the precondition (its failure is already reported)
             pre.pc.append(g)
         if not self.dry and not self.spec and not self.feasible(st):
@@ -241,7 +243,7 @@ class FuncMixin:
         for pname, argnode in writebacks:
             if argnode is None:
                 continue
-            out = self.assign_to(out, argnode, fr.locals[pname])
+            out = self.assign_to(out, argnode, fr.locals[pname], mut=True)
         return out
 
     def havoc_lvalue(self, st: State, lv: str, nodes):
@@ -331,7 +333,7 @@ class FuncMixin:
                 if argnode is not None and isinstance(nv, V) and isinstance(nv.t, (TSet, TMap, TSeq)) \
                         and isinstance(ov, V) and nv is not ov and isinstance(argnode, (ast.Name, ast.Attribute)) \
                         and p in self.mutated_names(fdef):
-                    cst = self.assign_to(cst, argnode, nv)
+                    cst = self.assign_to(cst, argnode, nv, mut=True)
             if o.kind in ("ok", "ret"):
                 yield cst, (o.val if o.kind == "ret" and o.val is not None else NONEV)
             elif o.kind == "exc":
@@ -368,6 +370,17 @@ class FuncMixin:
             yield st, fresh(TOpaque(cname), "obj")
             return
         ci = self.ct.classes[cname]
+        if ci.spec is not None and ci.spec.record:
+            rt = self.ct.env.aliases[cname]
+            given = dict(zip(rt.names, args))
+            given.update(kw)
+            items = []
+            for nme, it in zip(rt.names, rt.items):
+                if nme not in given:
+                    raise EngineError(f"record {cname}: missing field {nme}")
+                items.append(coerce(self.as_value(given[nme]), it))
+            yield st, V(rt, [z for i in items for z in i.zs])
+            return
         if ci.spec is not None and ci.spec.value_like:
             yield from self.call_builtin(st, ci.spec.value_like, args, kw, node)
             return
